@@ -626,5 +626,351 @@ class C10(EvalProp):
         return None
 
 
-REGISTRY = {"C01": C01, "C02": C02, "C03": C03, "C04": C04, "C05": C05, "C10": C10, "C11": C11, "C14": C14}
+# ======================================================================================
+# parser properties
+# ======================================================================================
+def fancy_ast(rng, t, p_name=0.5, p_num=0.6):
+    """respell names, string literals and numbers of an AST with the full variety the RFC allows
+    (escapes incl. hex case and surrogate pairs, number formats); the denotation is unchanged"""
+    if not isinstance(t, tuple) or not t:
+        return t
+    if t[0] == "name":
+        raw = unS(t[1])
+        if raw[:1] in ("'", '"') and rng.random() < p_name:
+            inner = raw[1:-1]
+            if "\\" not in inner:
+                return ("name", S(gen.fancy_name(rng, inner)))
+        return t
+    if t[0] == "n" and len(t) == 2 and isinstance(t[1], tuple):
+        raw = unS(t[1])
+        if raw[:1] in ("'", '"') and rng.random() < p_name and "\\" not in raw:
+            return ("n", S(gen.fancy_name(rng, raw[1:-1])))
+        return t
+    if t[0] in ("int", "flt") and rng.random() < p_num:
+        return ("rawnum", rng.choice(gen.NUM_SPELLINGS))
+    if t[0] == "str" and rng.random() < p_name:
+        body = unS(t[1])
+        if "\\" not in body and "'" not in body and '"' not in body:
+            q = "'" if rng.random() < 0.5 else '"'
+            return ("rawstr", q + gen.fancy_body(rng, body, q) + q)
+        return t
+    if t[0] == "s":
+        return t
+    return tuple(fancy_ast(rng, x, p_name, p_num) for x in t)
+
+
+def same_ast(a, b):
+    from .sx import parse, canon
+    try:
+        return canon(parse(a)) == canon(parse(b))
+    except Exception:
+        return False
+
+
+INF = "(flt inf)"
+
+
+class ParseProp(PropCheck):
+    """strings through parse_json_path; the extracted model of the parser (generated grammar +
+    Build.v) and the RFC reference recogniser (Concrete.v) answer for the same string"""
+    n_quick = 12000
+    n_thorough = 400000
+
+    def sentences(self, n):
+        """(text, meta) of sentences intended to be valid"""
+        prof = gen.Profile(odd_names=True, hostile_names=True, regex=True, max_segments=3, filter_depth=2)
+        g = gen.Gen(self.rng, prof)
+        out = []
+        while len(out) < n:
+            q = g.query()
+            if not (gen.parser_shaped(q) and gen.valid_ast(q)):
+                continue
+            q2 = fancy_ast(self.rng, q)
+            ly = gen.Layout(self.rng, blank=self.rng.choice([0.0, 0.0, 0.2, 0.6]))
+            try:
+                text = gen.render(q2, ly)
+            except Exception:
+                continue
+            out.append((text, {"kind": "render"}))
+        return out
+
+    def fixed_sentences(self):
+        return []
+
+    def mk(self, cid, text, meta):
+        return Case(cid, "PARSE", [S(text)], dict(meta, query=text))
+
+    def verdict_common(self, c, ans):
+        I, M, R = ans.get("I"), ans.get("M"), ans.get("R")
+        if not I or not M or not R:
+            return Verdict("violation", detail="missing answer: %r" % ans)
+        if I[0] not in ("OK", "ERR"):
+            return Verdict("violation", detail="the parser answered %s (no panic, abort or hang is allowed)" % I[0], nontrivial=True, key=c.meta["query"])
+        if M[0] in ("OUTOFFUEL", "BADCASE", "STACK", "UNKNOWN"):
+            return Verdict("violation", detail="parser model could not answer: %r" % (M,), key=c.meta["query"])
+        return None
+
+    def impl_matches_model(self, I, M):
+        if I[0] == "ERR":
+            return M[0] == "ERR"
+        if M[0] == "INF":
+            return INF in I[1]
+        return M[0] == "OK" and same_ast(I[1], M[1])
+
+
+class C06(ParseProp):
+    pid = "C06"
+    design_ref = "DESIGN.md section 3, C06"
+    technique = "grammar translated to Coq on every run + Coq theorems on the parser model + differential run against an RFC reference recogniser"
+    level_text = ("The pest grammar is translated into a Coq deep embedding on every run; the parser model (Peg.v interpreter over it + Build.v, the "
+                  "hand model of parser.rs) is extracted and run against the crate on every generated sentence, together with an independent "
+                  "reference recogniser of the RFC 9535 ABNF + validity rules written in Coq (Concrete.v). Coq theorems: Build accepts every "
+                  "well-typed standard function call and every in-range integer (C06_typing, C06_int_range). The whole-language acceptance "
+                  "theorem (every RFC sentence is accepted) is NOT proved: that part rests on the differential run and is named partial.")
+    level_note = "whole-language round trip not proved (partial); rendered sentences cover all layout choices, escapes, number formats; pest runtime modelled"
+    rule = ("sentences rendered from random well-typed ASTs under random layouts (blank space at every S, quote style, every escape form incl. "
+            "hex case and surrogate pairs, number spellings, shorthand/bracket), plus fixed RFC examples; a sentence counts when the reference "
+            "recogniser says VALID; observable = accept/reject and the AST; non-trivial = VALID; distinct = distinct strings")
+
+    def fixed_sentences(self):
+        return ["$", "$.store.book[*].author", "$..author", "$.store.*", "$.store..price", "$..book[2]", "$..book[-1]", "$..book[0,1]", "$..book[:2]",
+                "$..book[?@.isbn]", "$..book[?@.price<10]", "$..*", "$[?@.a==1e999]", "$[?@.a==9007199254740992]", "$[?@.a==-9007199254740993]",
+                "$[?@.a==123456789012345678901234567890]", "$['\\u263a']", "$['\\u263A']", "$['\\ud83d\\ude00']", "$['\\uD83D\\uDE00']", "$[\"\\\"\"]", "$['\u263a']",
+                "$.\u2028", "$.a\u00a0", "$[?length(@.a)>=2]", "$[?count(@.*)==1]", "$[?match(@.a,'x.*')]", "$[?search(@.a,\"[a-c]\")]",
+                "$[?value(@..a)==1]", "$[?@.a==-0]", "$[?@.a==-0.0]", "$[?@.a==0e0]", "$[?@.a==1E-2]", "$[ 'a' ]", "$[ 0 : 1 : 2 ]", "$[::]", "$[:]", "$[::-1]",
+                "$[?(@.a)]", "$[?!(@.a)]", "$[?! @.a]", "$[?!\n@.a]", "$[? @.a && @.b || @.c ]", "$[?@['a'][0].b==$.x[1]]", "$[?@ == 'it\\'s']",
+                "$[?length(value(@.a))==1]", "$[?match(value(@.a), 'a')]", "$[?count(@..*)>2]", "$ .a", "$\t[0]", "$..[?@.a]", "$..['a','b']"]
+
+    def cases(self):
+        n = self.n_quick if self.tier == "quick" else self.n_thorough
+        out = []
+        for i, (text, meta) in enumerate(self.sentences(n)):
+            out.append(self.mk("r%d" % i, text, meta))
+        for j, text in enumerate(self.fixed_sentences()):
+            out.append(self.mk("f%d" % j, text, {"kind": "fixed"}))
+        return out
+
+    def judge(self, c, ans):
+        v = self.verdict_common(c, ans)
+        if v:
+            return v
+        I, M, R = ans["I"], ans["M"], ans["R"]
+        key = c.meta["query"]
+        self.count("rfc_" + R[0])
+        if R[0] != "VALID":
+            return Verdict("ok", detail="not a valid sentence: C07 judges it")
+        if I[0] == "OK":
+            if same_ast(I[1], R[1]) or (INF in I[1]):
+                if not self.impl_matches_model(I, M):
+                    return Verdict("stale", nontrivial=True, key=key)
+                return Verdict("ok", nontrivial=True, key=key)
+            return Verdict("violation", detail="accepted, but read as a different query: %s instead of %s" % (I[1], R[1]), nontrivial=True, key=key)
+        # rejected although valid
+        if self.impl_matches_model(I, M):
+            cls = self.known_reject_class(c, R)
+            if cls:
+                self.count("known_" + cls)
+                return Verdict("known", cls=cls, detail="valid sentence rejected: %r" % key, nontrivial=True, key=key)
+            return Verdict("violation", detail="a valid RFC 9535 query is rejected (by the parser and by its model): %r" % key, nontrivial=True, key=key)
+        return Verdict("violation", detail="a valid RFC 9535 query is rejected: %r" % key, nontrivial=True, key=key)
+
+    def known_reject_class(self, c, R):
+        import re
+        # an integer literal of a comparison outside +-(2^53-1): parse_number reports "out of bounds"
+        from .sx import parse
+        def ints(t):
+            if isinstance(t, tuple):
+                if len(t) == 2 and t[0] == "int" and isinstance(t[1], int):
+                    yield t[1]
+                for x in t[1:]:
+                    yield from ints(x)
+        try:
+            if any(abs(z) > MAXI for z in ints(parse(R[1]))):
+                return "D23-int-literal-range"
+        except Exception:
+            pass
+        return None
+
+
+class C07(ParseProp):
+    pid = "C07"
+    design_ref = "DESIGN.md section 3, C07"
+    technique = "grammar translated to Coq on every run + Coq theorems (accepted => well-typed, integers in range) + mutation-based differential run against an RFC reference recogniser"
+    level_text = ("Coq theorems over the parser model: every query Build constructs is well-typed in the sense of RFC 9535 2.4.3 unless it calls an "
+                  "extension function, and all its index/slice/singular-query integers are within the I-JSON range (C07_typing, C07_int_range: "
+                  "induction over Build's recursion). The grammar is translated to Coq on every run; single-token edits of valid sentences and "
+                  "arbitrary strings are run through the crate, its extracted model and the independent RFC recogniser (Concrete.v). The "
+                  "whole-language rejection theorem is NOT proved (partial).")
+    level_note = "whole-language inversion not proved (partial); the reference recogniser is a human transcription of the ABNF; extension-function calls are outside the property"
+    rule = ("every case is a single-token edit (delete/insert/substitute/swap/duplicate a character, blank space anywhere, digit edits around 0, "
+            "+-2^53 and the i64 limits, case flips, stray closers) of a rendered valid sentence, or an arbitrary string; a case counts when the "
+            "reference recogniser says INVALID or ILLTYPED; non-trivial = the mutant differs from every valid sentence seen; distinct strings")
+
+    def cases(self):
+        n = self.n_quick if self.tier == "quick" else self.n_thorough
+        base = self.sentences(max(200, n // 6))
+        out = []
+        i = 0
+        while len(out) < n:
+            text, _ = base[i % len(base)]
+            m = gen.mutate(self.rng, text)
+            if self.rng.random() < 0.15:
+                m = gen.mutate(self.rng, m)
+            out.append(self.mk("m%d" % i, m, {"kind": "mutant", "of": text}))
+            i += 1
+        fixed = ["$.a b", "$[?@.a in 1]", "$[?fo o(@)]", "$[?@['a\tb']==1]", "$[?@[ 'a' ]==1]", "$[?@. a==1]", "$[01]", "$[-0]", "$[9007199254740992]",
+                 "$[?@[9007199254740992]==1]", "$[?length(@.a)]", "$[?length(@.*)==1]", "$[?match(@.*,'a')]", "$[?count(length(@))==1]", "$[?value(1)==1]",
+                 "$[?count(1)==1]", "$[?length(@.a,@.b)==1]", "$[?match(@.a)]", "$[?@.*==1]", "$[?@..a==1]", "$[?@[0,1]==1]", "$[?@[0:1]==1]", "$[?1]",
+                 "$[?'a']", "$[?true]", "$[?@.a==match(@.b,'a')]", "$[?match(@.a,'a')==true]", " $", "$ ", "$\n", "", "$$", "@", "$.", "$..", "$...a", "$[", "$]",
+                 "$[0", "$['a\"]", "$['\\x']", "$['\\u12']", "$['\\ud83d']", "$['\\ude00']", "$['\\ud83d\\u0041']", "$[1:2:3:4]", "$[?@.a=1]", "$[?@.a===1]", "$[?@.a<>1]",
+                 "$[?@.a==1 &&]", "$[?@.a & @.b]", "$[?@.a | @.b]", "$[?!]", "$[?()]", "$[?(@.a]", "$[?@.a)]", "$.1", "$.-a", "$.a-b", "$['a',]", "$[,'a']", "$[*,]",
+                 "$[?@.a==TRUE]", "$[?@.a==Null]", "$[?@.a==1.]", "$[?@.a==.5]", "$[?@.a==1e]", "$[?@.a==+1]", "$[?@.a==01]", "$[?@.a==0x10]", "$[?length (@.a)==1]",
+                 "$[?Length(@.a)==1]", "$[?_f(@.a)]", "$[?1f(@.a)]", "$.a.\u0000", "$['\u0000']", "$['\u001f']", "$[\"\u0007\"]", "$[?@.a=='\u0001']", "$. a", "$.. a", "$..\ta"]
+        for j, text in enumerate(fixed):
+            out.append(self.mk("f%d" % j, text, {"kind": "fixed"}))
+        # arbitrary strings
+        alpha = gen.TOKEN_ALPHABET
+        for j in range(n // 10):
+            text = "".join(self.rng.choice(alpha) for _ in range(self.rng.randrange(0, 12)))
+            if self.rng.random() < 0.7:
+                text = "$" + text
+            out.append(self.mk("a%d" % j, text, {"kind": "arbitrary"}))
+        return out
+
+    def judge(self, c, ans):
+        v = self.verdict_common(c, ans)
+        if v:
+            return v
+        I, M, R = ans["I"], ans["M"], ans["R"]
+        key = c.meta["query"]
+        self.count("rfc_" + R[0])
+        if R[0] in ("VALID", "EXT"):
+            return Verdict("ok", detail="valid sentence or extension call: outside C07")
+        if I[0] == "ERR":
+            if not self.impl_matches_model(I, M):
+                return Verdict("stale", nontrivial=True, key=key)
+            return Verdict("ok", nontrivial=True, key=key)
+        if self.impl_matches_model(I, M):
+            return Verdict("violation", detail="a string that is not a valid RFC 9535 query (%s) is accepted, by the parser and by its model: %r read as %s" % (R[0], key, I[1]), nontrivial=True, key=key)
+        return Verdict("violation", detail="a string that is not a valid RFC 9535 query (%s) is accepted: %r read as %s" % (R[0], key, I[1]), nontrivial=True, key=key)
+
+
+def respell(rng, t):
+    """an equivalent spelling of the AST at AST level: name quoting style, redundant parentheses,
+    single selector in brackets (same AST), integer vs float literal of the same number"""
+    if not isinstance(t, tuple) or not t or t[0] == "s":
+        return t
+    if t[0] == "name" or (t[0] == "n" and len(t) == 2 and isinstance(t[1], tuple)):
+        raw = unS(t[1])
+        body = raw[1:-1] if raw[:1] in ("'", '"') else raw
+        if "\\" in raw or "'" in body or '"' in body:
+            return t
+        opts = ["'" + body + "'", '"' + body + '"']
+        if t[0] == "name" and body and gen.is_shorthand(body) and all(c.isalnum() or c == "_" or ord(c) >= 128 for c in body) and not body[0].isdigit():
+            opts.append(body)
+        if t[0] == "n" and body and all(c.isalnum() or c == "_" or ord(c) >= 128 for c in body) and not body[0].isdigit():
+            opts.append(body)
+        return (t[0], S(rng.choice(opts)))
+    if t[0] == "int" and abs(t[1]) < 2**40 and rng.random() < 0.5:
+        f = gen.flt(float(t[1]))
+        return ("flt", f[1], f[2])
+    if t[0] == "atom" and rng.random() < 0.15:
+        return ("atom", ("afilter", ("atom", respell(rng, t[1])), 0))
+    if t[0] == "filter" and rng.random() < 0.2:
+        return ("filter", ("atom", ("afilter", respell(rng, t[1]), 0)))
+    return tuple(respell(rng, x) for x in t)
+
+
+def in_sels_shorthand_fix(t):
+    """inside a multi-selector bracket a name must be quoted"""
+    if not isinstance(t, tuple) or not t or t[0] == "s":
+        return t
+    if t[0] == "sels":
+        out = []
+        for x in t[1:]:
+            if isinstance(x, tuple) and x[0] == "name" and gen.is_shorthand(unS(x[1])):
+                x = ("name", S("'" + unS(x[1]) + "'"))
+            out.append(in_sels_shorthand_fix(x))
+        return ("sels",) + tuple(out)
+    return tuple(in_sels_shorthand_fix(x) for x in t)
+
+
+class C13(EvalProp):
+    pid = "C13"
+    design_ref = "DESIGN.md section 3, C13"
+    technique = "Coq lemmas on the RFC semantics (spellings denote the same selector/value) + Theorem A + k-spellings differential run"
+    level_text = ("Coq theorems: shorthand, single- and double-quoted spellings of a plain name denote the same name selector; a single "
+                  "selector in brackets is the selector; redundant parentheses and ?(expr) do not change a filter; integer and float "
+                  "spellings of one number compare alike against every value; through Theorem A the model inherits them. That blank space "
+                  "and layout do not change the AST is a parser fact checked on every run by rendering each query under k random layouts "
+                  "and spellings through the crate (quick k=6, thorough k=24) and comparing all results pairwise and with the RFC semantics.")
+    level_note = "the parser half (layout-insensitivity of the AST) is not proved; names spelled with escapes are the known class D7"
+    rule = ("each (query, document) is spelled k ways (name quoting, .* vs [*], ?e vs ?(e), int vs float, blank space at every S); all "
+            "spellings go through query_with_path; observable = sequence of locations; a group is non-trivial when the RFC result is non-empty")
+    n_quick = 2500
+    n_thorough = 30000
+
+    def cases(self):
+        k = 6 if self.tier == "quick" else 24
+        n = self.n_quick if self.tier == "quick" else self.n_thorough
+        g = gen.Gen(self.rng, gen.Profile(odd_names=True, max_segments=3, filter_depth=2, multi=True))
+        out = []
+        self._round = getattr(self, "_round", 0) + 1
+        tag = "r%d_" % self._round
+        gi = 0
+        while gi < n:
+            q, d = g.pair()
+            if not (gen.parser_shaped(q) and gen.valid_ast(q)):
+                continue
+            for j in range(k):
+                q2 = in_sels_shorthand_fix(respell(self.rng, q)) if j > 0 else q
+                if not gen.parser_shaped(q2):
+                    continue
+                ly = gen.Layout(self.rng, blank=self.rng.choice([0.0, 0.3, 0.8]))
+                try:
+                    text = gen.render(q2, ly)
+                except Exception:
+                    continue
+                out.append(Case("g%s%d_%d" % (tag, gi, j), "EVAL", [q2, d], {"group": tag + str(gi), "query": text}, impl=("E2E", [S(text), d])))
+            gi += 1
+        return out
+
+    def obs(self, items):
+        return locs(items)
+
+    def key(self, c):
+        return str(c.meta.get("group"))
+
+    def known_class(self, c, ans, I, M, R, S_, K):
+        if isinstance(S_, list) and locs(S_) != locs(R) and locs(S_) == locs(I):
+            return "D1-selector-major-union"
+        if d7_applies(K):
+            return "D7-escaped-names"
+        return None
+
+    def post_checks(self, cases, res):
+        groups = {}
+        for c in cases:
+            groups.setdefault(c.meta["group"], []).append(c)
+        out = []
+        for gi, cs in groups.items():
+            first = None
+            for c in cs:
+                ans = res.get(c.id, {})
+                I, R = parse_items(ans.get("I")), parse_items(ans.get("R"))
+                if isinstance(I, str) or isinstance(R, str):
+                    continue
+                if first is None:
+                    first = (c, locs(I), locs(R))
+                    continue
+                if locs(R) != first[2]:
+                    out.append((c, ans, Verdict("violation", detail="the RFC semantics differs between two spellings of one query (generator or spec error): %r vs %r" % (c.meta["query"], first[0].meta["query"]))))
+                    break
+                if locs(I) != first[1]:
+                    out.append((c, ans, Verdict("violation", detail="two equivalent spellings give different results: %r -> %r, %r -> %r" % (first[0].meta["query"], first[1], c.meta["query"], locs(I)), nontrivial=True)))
+                    break
+        return out
+
+
+REGISTRY = {"C01": C01, "C02": C02, "C03": C03, "C04": C04, "C05": C05, "C06": C06, "C07": C07, "C10": C10, "C11": C11, "C13": C13, "C14": C14}
 NOT_YET = {}
